@@ -160,7 +160,8 @@ def _main():
     for line in stdin:
         try:
             message = loads(line)
-        except ValueError:
+        except (ValueError, RecursionError):
+            # RecursionError: too deeply nested to be decoded.
             stdout.write("Not JSON: {}\n\n".format(line.rstrip(b"\n")))
             continue
         if not isinstance(message, dict) or REQUIRED_FIELDS - set(message.keys()):
